@@ -88,8 +88,8 @@ Local Open Scope nat_scope.
 """
 
 
-def write_shards(prefix, imports, items, per_file=200):
-    """items: list of Coq terms (strings) of type list nat; writes shard files evaluating (i, term)."""
+def write_shards(prefix, imports, items, per_file=200, ty="list nat"):
+    """items: list of Coq terms (strings) of type `ty` (list nat / list Z); writes shard files evaluating (i, term)."""
     os.makedirs(BUILD, exist_ok=True)
     paths = []
     for k in range(0, len(items), per_file):
@@ -97,7 +97,7 @@ def write_shards(prefix, imports, items, per_file=200):
         with open(p, "w") as f:
             f.write(HEADER % imports)
             for i, term in enumerate(items[k:k + per_file]):
-                f.write("Definition r%d : list nat := %s.\n" % (k + i, term))
+                f.write("Definition r%d : %s := %s.\n" % (k + i, ty, term))
                 f.write("Eval vm_compute in (%d, r%d).\n" % (k + i, k + i))
         paths.append(p)
     return paths
@@ -124,7 +124,7 @@ def run_shards(paths, jobs=16):
             if rc != 0:
                 errors.append((path, rc, err[-2000:]))
             for m in RES_RE.finditer(out):
-                body = m.group(2).strip()
+                body = m.group(2).replace("%Z", "").replace("(", "").replace(")", "").strip()
                 results[int(m.group(1))] = [int(x) for x in body.split(";")] if body else []
     return results, errors
 
